@@ -481,6 +481,12 @@ class Checker:
                 self.expect_construct = True
                 self.queue.clear()
                 self.stack = []
+                # the token `__initial__` is reused by every construction: a failed activation of the
+                # previous machine must not mask the callbacks of this one
+                self.failed_ctx = [f for f in self.failed_ctx if f.tok != "__initial__"]
+                self.masked_open = {(t_, c) for (t_, c) in getattr(self, "masked_open", set()) if t_ != "__initial__"}
+                self.propagating = None
+                self.drain_failing = None
                 if ev.get("active"):
                     self.active = set(ev["active"]) | {"sm"}
                 if ev.get("reuse") and self.state is not None:
